@@ -1,2 +1,4 @@
 import GBExtracted.Tables
 import GBExtracted.Forms
+import GBExtracted.Pipelines
+import GBExtracted.Effects
